@@ -6,6 +6,7 @@
  *   res_harness E|D teardown <variant> <point> <nsend> <nget> [cycles] -> "TEAR status live=<n>/<bytes> threads=<n> sync=<n> growth=<bytes per cycle>"
  *     point: 0 after init_handle, 1 after rejected set_parameter, 2 after accepted set_parameter, 3 after init, 4 mid-stream, 5 after EOS + drain */
 #define _GNU_SOURCE
+#include "../no_rt.h"   /* ordinary threads instead of SCHED_FIFO/99 (see the header) */
 #include <stdio.h>
 #include <stdlib.h>
 #include <string.h>
